@@ -536,3 +536,281 @@ Proof.
   split; [exact HP|]. split; [exact c03l_demo_noitem|]. split; [exact Hnu|].
   rewrite <- He. exact (noitem_terminates _ c03l_demo HP c03l_demo_noitem Hnu).
 Qed.
+
+(* ================================================================== (4) counting flushes; termination reduced to (ii)+(iii) *)
+(* number of computed futures among the ids [0], ..., [N-1] *)
+Definition cN (N : nat) (s : st) : nat := length (filter (fun k => computed [Z.of_nat k] s) (seq 0 N)).
+
+Lemma filter_len_le {A} (f g : A -> bool) l :
+  (forall x, In x l -> f x = true -> g x = true) -> (length (filter f l) <= length (filter g l))%nat.
+Proof.
+  induction l as [|a l IH]; intros H; cbn; [lia|].
+  assert (IH' : (length (filter f l) <= length (filter g l))%nat) by (apply IH; intros x Hx; apply H; right; exact Hx).
+  destruct (f a) eqn:Fa; [rewrite (H a (or_introl eq_refl) Fa); cbn; lia|]. destruct (g a); cbn; lia.
+Qed.
+
+Lemma filter_len_lt {A} (f g : A -> bool) l a :
+  (forall x, In x l -> f x = true -> g x = true) -> In a l -> f a = false -> g a = true ->
+  (length (filter f l) < length (filter g l))%nat.
+Proof.
+  induction l as [|b l IH]; intros H Hin Fa Ga; [destruct Hin|]. cbn.
+  assert (Hl : forall x, In x l -> f x = true -> g x = true) by (intros x Hx; apply H; right; exact Hx).
+  destruct Hin as [->|Hin].
+  - rewrite Fa, Ga. cbn. pose proof (filter_len_le f g l Hl). lia.
+  - specialize (IH Hl Hin Fa Ga). destruct (f b) eqn:Fb; [rewrite (H b (or_introl eq_refl) Fb); cbn; lia|]. destruct (g b); cbn; lia.
+Qed.
+
+Lemma filter_len_all {A} (f : A -> bool) l : (length (filter f l) <= length l)%nat.
+Proof. induction l as [|a l IH]; cbn; [lia|]. destruct (f a); cbn; lia. Qed.
+
+Lemma cN_le N s : (cN N s <= N)%nat.
+Proof. unfold cN. pose proof (filter_len_all (fun k => computed [Z.of_nat k] s) (seq 0 N)) as H. rewrite seq_length in H. exact H. Qed.
+
+Lemma cN_mono N s s' : (forall x, computed x s = true -> computed x s' = true) -> (cN N s <= cN N s')%nat.
+Proof. intros H. unfold cN. apply filter_len_le. intros x _. apply H. Qed.
+
+Lemma cN_strict N s s' k : (forall x, computed x s = true -> computed x s' = true) -> (k < N)%nat ->
+  computed [Z.of_nat k] s = false -> computed [Z.of_nat k] s' = true -> (cN N s < cN N s')%nat.
+Proof.
+  intros H Hk A B. unfold cN. apply (filter_len_lt _ _ _ k); [intros x _; apply H| |exact A|exact B].
+  apply in_seq. lia.
+Qed.
+
+Section Count.
+  Variable P : params.
+  Hypothesis HP : pointwise P.
+  Variable p0 : prog.
+  Hypothesis Ht0 : tree p0.
+
+  Let h := fst (create [] (FTask p0) (st0 P)).
+  Let s1 := snd (create [] (FTask p0) (st0 P)).
+  Let c0 := start h s1.
+
+  Hypothesis Hnu : forall n, no_unwind P n c0.
+
+  Lemma comp_mono_S n x : computed x (c_st (run P n c0)) = true -> computed x (c_st (run P (S n) c0)) = true.
+  Proof.
+    intros Hc. replace (S n) with (n + 1)%nat by lia. rewrite run_add.
+    pose proof (MachineC05T.Inv_run P n c0 (Inv_s1 P p0)) as (D & _). fold h s1 c0 in D.
+    rewrite run_S. destruct (is_final (c_mode (run P n c0))); [exact Hc|]. cbn [run].
+    destruct (step_ok P (run P n c0)) as (evs & _ & _ & G). destruct (G D) as (_ & C).
+    specialize (C x). rewrite Hc in C. destruct (computed x (c_st (step P (run P n c0)))); [reflexivity|cbn in C; lia].
+  Qed.
+
+  Lemma comp_mono_add n m x : computed x (c_st (run P n c0)) = true -> computed x (c_st (run P (n + m) c0)) = true.
+  Proof.
+    intros Hc. induction m as [|m IH]; [rewrite Nat.add_0_r; exact Hc|].
+    replace (n + S m)%nat with (S (n + m)) by lia. apply comp_mono_S. exact IH.
+  Qed.
+
+  (* a flush point: a pass has ended and the awaited task is not computed *)
+  Definition fpb (n : nat) : bool :=
+    match c_mode (run P n c0) with MAfterExec => negb (computed h (c_st (run P n c0))) | _ => false end.
+
+  Definition flushes (n : nat) : nat := length (filter fpb (seq 0 n)).
+
+  Lemma fpb_true n : fpb n = true -> c_mode (run P n c0) = MAfterExec /\ computed h (c_st (run P n c0)) = false.
+  Proof. unfold fpb. destruct (c_mode (run P n c0)); try discriminate. intros H. apply negb_true_iff in H. auto. Qed.
+
+  (* the step at a flush point strictly increases the number of computed futures below any bound on the ids *)
+  Lemma flush_counts N n : (top_next (c_st (run P n c0)) <= Z.of_nat N)%Z -> fpb n = true ->
+    (cN N (c_st (run P n c0)) < cN N (c_st (run P (S n) c0)))%nat.
+  Proof.
+    intros HN Hf. destruct (fpb_true n Hf) as (Hm & Hc).
+    destruct (flush_makes_progress P HP p0 Ht0 n (Hnu n) Hm Hc) as (_ & (d & Hd0 & Hd1 & (kind & idx & key & a & Hg)) & Hmono).
+    fold h s1 c0 in Hd0, Hd1, Hg, Hmono.
+    destruct (tree_run_CInv P p0 n HP Ht0 (Hnu n)) as (spec & HC). fold h s1 c0 in HC.
+    unfold CInv in HC. rewrite Hm in HC. destruct HC as (_ & _ & HS & _).
+    destruct (SInv_entry _ _ _ _ _ HS Hg) as ((k & Ek & Hk) & _). subst d.
+    apply (cN_strict N _ _ (Z.to_nat k)); [exact Hmono|lia| |]; rewrite Z2Nat.id by lia; assumption.
+  Qed.
+
+  (* (4-i) relative bound on the number of flushes: as long as the ids stay below N, at most N flushes happen
+     (each flush computes a future that was not computed, and computed futures stay computed) *)
+  Theorem flushes_bounded N n :
+    (forall k, (k <= n)%nat -> (top_next (c_st (run P k c0)) <= Z.of_nat N)%Z) ->
+    (flushes n <= cN N (c_st (run P n c0)))%nat /\ (flushes n <= N)%nat.
+  Proof.
+    intros HN. assert (G : (flushes n <= cN N (c_st (run P n c0)))%nat).
+    { induction n as [|n IH]; [cbn; lia|].
+      assert (IH' : (flushes n <= cN N (c_st (run P n c0)))%nat) by (apply IH; intros k Hk; apply HN; lia).
+      unfold flushes in *. rewrite seq_S, filter_app, app_length. cbn [Nat.add filter].
+      destruct (fpb n) eqn:Hf; cbn [length].
+      - pose proof (flush_counts N n (HN n ltac:(lia)) Hf). lia.
+      - pose proof (cN_mono N _ _ (comp_mono_S n)). lia. }
+    split; [exact G|]. pose proof (cN_le N (c_st (run P n c0))). lia.
+  Qed.
+End Count.
+
+(* (4-ii) TERMINATION REDUCED to the two missing facts: if (a) every _execute pass that starts with the awaited
+   task uncomputed ends (MAfterExec is reached), and (b) the number of futures ever created is bounded, then the
+   computation is done at some fuel, with the sequential outcome *)
+Section Reduce.
+  Variable P : params.
+  Hypothesis HP : pointwise P.
+  Variable p0 : prog.
+  Hypothesis Ht0 : tree p0.
+
+  Let h := fst (create [] (FTask p0) (st0 P)).
+  Let s1 := snd (create [] (FTask p0) (st0 P)).
+  Let c0 := start h s1.
+
+  Hypothesis Hnu : forall n, no_unwind P n c0.
+  Hypothesis Hpass : forall n, c_mode (run P n c0) = MWaitHead -> computed h (c_st (run P n c0)) = false ->
+    exists m, c_mode (run P (n + m) c0) = MAfterExec.
+  Variable N : nat.
+  Hypothesis Halloc : forall n, (top_next (c_st (run P n c0)) <= Z.of_nat N)%Z.
+
+  Lemma frames_at n : c_mode (run P n c0) = MWaitHead \/ c_mode (run P n c0) = MAfterExec ->
+    c_frames (run P n c0) = [FWait h; FTop].
+  Proof.
+    intros Hm. destruct (tree_run_CInv P p0 n HP Ht0 (Hnu n)) as (spec & HC). fold h s1 c0 in HC.
+    unfold CInv in HC. destruct Hm as [Hm|Hm]; rewrite Hm in HC; destruct HC as (_ & Hf & _); exact Hf.
+  Qed.
+
+  (* from the head of wait_for or from the end of a pass, with the awaited task computed: done in two steps *)
+  Lemma done_in_two n : c_mode (run P n c0) = MWaitHead \/ c_mode (run P n c0) = MAfterExec ->
+    computed h (c_st (run P n c0)) = true -> exists o, c_mode (run P (n + 2) c0) = MDone o.
+  Proof.
+    intros Hm Hc. pose proof (frames_at n Hm) as Hf. rewrite run_add.
+    destruct (run P n c0) as [m fr s]. cbn [c_mode c_frames c_st] in *. subst fr.
+    change 2%nat with (1 + 1)%nat. rewrite (run_add P 1 1), !run_one.
+    destruct Hm as [-> | ->]; cbn [step c_mode c_frames c_st]; rewrite Hc;
+      cbn [step c_mode c_frames c_st]; eexists; reflexivity.
+  Qed.
+
+  Lemma reduce_measure : forall j n, c_mode (run P n c0) = MWaitHead ->
+    (N - cN N (c_st (run P n c0)) <= j)%nat -> exists n' o, c_mode (run P n' c0) = MDone o.
+  Proof.
+    induction j as [|j IH]; intros n Hm Hj.
+    - destruct (computed h (c_st (run P n c0))) eqn:Hc.
+      + destruct (done_in_two n (or_introl Hm) Hc) as (o & Ho). eauto.
+      + destruct (Hpass n Hm Hc) as (m & Hm2).
+        destruct (computed h (c_st (run P (n + m) c0))) eqn:Hc2.
+        * destruct (done_in_two (n + m) (or_intror Hm2) Hc2) as (o & Ho). eauto.
+        * exfalso. assert (Hf : fpb P p0 (n + m) = true) by (unfold fpb; fold h s1 c0; rewrite Hm2, Hc2; reflexivity).
+          pose proof (flush_counts P HP p0 Ht0 Hnu N (n + m) (Halloc (n + m)) Hf) as Hlt. fold h s1 c0 in Hlt.
+          pose proof (cN_mono N _ _ (fun x => comp_mono_add P p0 n m x)) as Hle. fold h s1 c0 in Hle.
+          pose proof (cN_le N (c_st (run P (S (n + m)) c0))). lia.
+    - destruct (computed h (c_st (run P n c0))) eqn:Hc.
+      + destruct (done_in_two n (or_introl Hm) Hc) as (o & Ho). eauto.
+      + destruct (Hpass n Hm Hc) as (m & Hm2).
+        destruct (computed h (c_st (run P (n + m) c0))) eqn:Hc2.
+        * destruct (done_in_two (n + m) (or_intror Hm2) Hc2) as (o & Ho). eauto.
+        * assert (Hf : fpb P p0 (n + m) = true) by (unfold fpb; fold h s1 c0; rewrite Hm2, Hc2; reflexivity).
+          pose proof (flush_counts P HP p0 Ht0 Hnu N (n + m) (Halloc (n + m)) Hf) as Hlt. fold h s1 c0 in Hlt.
+          pose proof (cN_mono N _ _ (fun x => comp_mono_add P p0 n m x)) as Hle. fold h s1 c0 in Hle.
+          destruct (flush_makes_progress P HP p0 Ht0 (n + m) (Hnu (n + m)) Hm2 Hc2) as (Hw & _). fold h s1 c0 in Hw.
+          apply (IH (S (n + m)) Hw). lia.
+  Qed.
+
+  Theorem terminates_if_passes_end_and_allocation_bounded : exists n, c_mode (run P n c0) = MDone (eval p0).
+  Proof.
+    assert (Hg : get h s1 = Some (mkFut None (KTask (fresh_task p0)))) by (unfold h, s1, create, alloc; cbn; reflexivity).
+    assert (E1 : c_mode (run P 1 c0) = MWaitHead).
+    { rewrite run_one. unfold c0, start. cbn [step c_mode c_frames c_st]. unfold computed. rewrite Hg. reflexivity. }
+    destruct (reduce_measure N 1 E1 ltac:(lia)) as (n & o & Ho).
+    exists n. rewrite Ho. f_equal. exact (async_eq_seq_tree P p0 n o HP Ht0 (Hnu n) Ho).
+  Qed.
+End Reduce.
+
+Theorem termination_reduced_tree P p N :
+  pointwise P -> tree p ->
+  let h := fst (create [] (FTask p) (st0 P)) in
+  let s1 := snd (create [] (FTask p) (st0 P)) in
+  (forall n, no_unwind P n (start h s1)) ->
+  (forall n, c_mode (run P n (start h s1)) = MWaitHead -> computed h (c_st (run P n (start h s1))) = false ->
+     exists m, c_mode (run P (n + m) (start h s1)) = MAfterExec) ->
+  (forall n, (top_next (c_st (run P n (start h s1))) <= Z.of_nat N)%Z) ->
+  exists n, c_mode (run P n (start h s1)) = MDone (eval p).
+Proof. intros HP Ht. cbn zeta. intros Hnu Hpass Halloc. exact (terminates_if_passes_end_and_allocation_bounded P HP p Ht Hnu Hpass N Halloc). Qed.
+
+Theorem flushes_bounded_tree P p N n :
+  pointwise P -> tree p ->
+  let h := fst (create [] (FTask p) (st0 P)) in
+  let s1 := snd (create [] (FTask p) (st0 P)) in
+  (forall n, no_unwind P n (start h s1)) ->
+  (forall k, (k <= n)%nat -> (top_next (c_st (run P k (start h s1))) <= Z.of_nat N)%Z) ->
+  (length (filter (fun k => match c_mode (run P k (start h s1)) with
+                            | MAfterExec => negb (computed h (c_st (run P k (start h s1))))
+                            | _ => false end) (seq 0 n)) <= N)%nat.
+Proof. intros HP Ht. cbn zeta. intros Hnu HN. exact (proj2 (flushes_bounded P HP p Ht Hnu N n HN)). Qed.
+
+(* ================================================================== (4-iii) the macro-steps of ANY pass *)
+Section AnyPass.
+  Variable P : params.
+  Hypothesis HP : pointwise P.
+  Variable p0 : prog.
+  Hypothesis Ht0 : tree p0.
+
+  Let h := fst (create [] (FTask p0) (st0 P)).
+  Let s1 := snd (create [] (FTask p0) (st0 P)).
+  Let c0 := start h s1.
+
+  Hypothesis Hnu : forall n, no_unwind P n c0.
+
+  (* after a flush that leaves the awaited task uncomputed the next pass starts: two steps later the machine
+     is at the head of the _execute loop with the awaited task alone on the stack *)
+  Theorem next_pass_starts n :
+    c_mode (run P n c0) = MWaitHead -> computed h (c_st (run P n c0)) = false ->
+    run P (n + 1) c0 = mkC MExecLoop [FExec 0; FWait h; FTop] (with_tasks (c_st (run P n c0)) [h]).
+  Proof.
+    intros Hm Hc. destruct (bl_reach P HP p0 Ht0 n (Hnu n)) as (spec & S & (((HC & HFm) & _) & _)).
+    fold h s1 c0 in HC, HFm. rewrite Hm in HFm. destruct HFm as (_ & HK).
+    unfold stack_ok in HK. unfold CInv in HC. rewrite Hm in HC, HK.
+    destruct HC as (_ & Hf & _). rewrite run_add, run_one.
+    destruct (run P n c0) as [m fr s]. cbn [c_mode c_frames c_st frames_ok] in *. subst m fr.
+    cbn [step c_mode c_frames c_st]. rewrite Hc, HK. reflexivity.
+  Qed.
+
+  (* in ANY pass (not only the first one) the entry on top of the task stack is dealt with after finitely many
+     steps - it is popped, the rest of the stack and every other existing heap entry untouched - unless it is an
+     uncomputed blocked task whose dependencies have not been scheduled yet (the "first visit", which pushes its
+     uncomputed dependencies).  An unblocked suspended task is resumed and runs, with everything it starts,
+     until it completes or is stuck again. *)
+  Theorem top_entry_popped_unless_first_visit n s x ts :
+    run P n c0 = mkC MExecLoop [FExec 0; FWait h; FTop] s -> tasks s = x :: ts ->
+    (forall tk, get x s = Some (mkFut None (KTask tk)) -> is_blocked tk s = true -> tk_ds tk = true) ->
+    exists m s', run P (n + m) c0 = mkC MExecLoop [FExec 0; FWait h; FTop] s' /\ tasks s' = ts /\
+      forall d, d <> x -> get d s <> None -> get d s' = get d s.
+  Proof.
+    intros Er Hts Hfv.
+    assert (HR : Rc P p0 (mkC MExecLoop (fr0 P p0) s)) by (exists n; symmetry; exact Er).
+    assert (Hpop : popped P p0 x ts (mkC MExecLoop (fr0 P p0) s)).
+    { destruct (computed x s) eqn:Hc; [apply (exec_pop_simple P p0 Hnu s x ts HR Hts); left; exact Hc|].
+      destruct (get x s) as [[out kd]|] eqn:Hg.
+      2: { apply (exec_pop_simple P p0 Hnu s x ts HR Hts). right. intros tk. rewrite Hg. discriminate. }
+      destruct kd as [tk|kind idx key a|o'|];
+        try (apply (exec_pop_simple P p0 Hnu s x ts HR Hts); right; intros tk0; rewrite Hg; discriminate).
+      assert (out = None) as -> by (unfold computed in Hc; rewrite Hg in Hc; cbn in Hc; destruct out; [discriminate|reflexivity]).
+      destruct (is_blocked tk s) eqn:Hb.
+      - apply (exec_pop_blocked P HP p0 Ht0 Hnu s x ts tk HR Hts Hg Hb). apply (Hfv tk eq_refl Hb).
+      - destruct (Rc_exec_inv P HP p0 Ht0 Hnu s HR) as (spec & S & HS & _).
+        destruct (SInv_entry _ _ _ _ _ HS Hg) as (_ & ot & Hst & _ & Hp & Hk). cbn in Hp, Hk.
+        destruct (Hk eq_refl ltac:(discriminate)) as (k & K1 & K2 & _).
+        apply (resume_then P HP p0 Ht0 Hnu s x ts tk k HR Hts Hg Hb K1). intros o.
+        apply (tree_P_tree P HP p0 Ht0 Hnu). apply K2. }
+    destruct Hpop as (m & s' & R & T & K). exists m, s'. rewrite run_add, Er. split; [exact R|]. split; [exact T|].
+    intros d Nd A. apply K; [|exact A]. intros [E|[]]. apply Nd. symmetry. exact E.
+  Qed.
+End AnyPass.
+
+Theorem next_pass_starts_tree P p n :
+  pointwise P -> tree p ->
+  let h := fst (create [] (FTask p) (st0 P)) in
+  let s1 := snd (create [] (FTask p) (st0 P)) in
+  (forall n, no_unwind P n (start h s1)) ->
+  c_mode (run P n (start h s1)) = MWaitHead -> computed h (c_st (run P n (start h s1))) = false ->
+  run P (n + 1) (start h s1) = mkC MExecLoop [FExec 0; FWait h; FTop] (with_tasks (c_st (run P n (start h s1))) [h]).
+Proof. intros HP Ht. cbn zeta. intros Hnu. exact (next_pass_starts P HP p Ht Hnu n). Qed.
+
+Theorem top_entry_popped_unless_first_visit_tree P p n s x ts :
+  pointwise P -> tree p ->
+  let h := fst (create [] (FTask p) (st0 P)) in
+  let s1 := snd (create [] (FTask p) (st0 P)) in
+  (forall n, no_unwind P n (start h s1)) ->
+  run P n (start h s1) = mkC MExecLoop [FExec 0; FWait h; FTop] s -> tasks s = x :: ts ->
+  (forall tk, get x s = Some (mkFut None (KTask tk)) -> is_blocked tk s = true -> tk_ds tk = true) ->
+  exists m s', run P (n + m) (start h s1) = mkC MExecLoop [FExec 0; FWait h; FTop] s' /\ tasks s' = ts /\
+    forall d, d <> x -> get d s <> None -> get d s' = get d s.
+Proof. intros HP Ht. cbn zeta. intros Hnu. exact (top_entry_popped_unless_first_visit P HP p Ht Hnu n s x ts). Qed.
